@@ -125,6 +125,11 @@ def replay(ctx, prop):
         for m in r["M"][:30]:
             print(m)
         fails = seqtie.predicate_failures(r, tags)
+        if h.get("init_file") is not None:
+            # a history that boots on a given state file (seqtie.initfile_stage): judged by the views predicate (W lines) and panics
+            real, model = seqtie.initfile_failures(r, traces.get(hid), projection)
+            print("--- boot on a given state file: real failures %s; model differences %s" % (real, model))
+            fails = real
         if fails:
             ctx.violation(obj, "replayed history still violates %s: %s" % (prop, ", ".join(fails)), name="replayed.json")
     for hid, text, d in rr["crashes"]:
